@@ -85,8 +85,8 @@ _T = ["mirror_proxy", "mirror_order", "mirror_visitor", "limiter_position", "sta
       "writer_finite_complete", "writer_short_count", "writer_requests_cover", "writer_calls_concat", "reader_drain",
       "wlim_model_holdsOn", "rlim_model_holdsOn",
       "reader_pair_unchanged", "reader_any_source", "reader_any_prefix", "reader_read_bounds", "reader_eof_with_data",
-      "stats_count_all", "reader_tail_uncharged", "writer_any_sink", "writer_calls_any_sink", "writer_lax_sink_witness",
-      "rsrc_model_holdsOn", "wsnk_model_holdsOn", "reader_charged_partial", "reader_charged_witness", "bucket_bound",
+      "stats_count_all", "reader_tail_charged", "writer_any_sink", "writer_calls_any_sink", "writer_lax_sink_witness",
+      "rsrc_model_holdsOn", "wsnk_model_holdsOn", "reader_charged", "reader_charged_old_witness", "reader_code_charges", "bucket_bound",
       "bucket_window_bound", "closeTop_idem", "closeCount_of_check", "closeTop_bare", "client_close",
       "server_close_fixed", "server_close_partial", "server_close_witness", "server_close_full_fails",
       "server_close_switch", "server_close_current", "http_close_fixed", "http_close_current", "visitor_close", "visitor_server_close",
@@ -161,11 +161,11 @@ PROP = {
                 "byte for byte both ways and its tag. non-trivial = a write that was split / a grant that waited / any half-tunnel, close, "
                 "dispatch, sniff or end-to-end transfer that ran; distinct = distinct (op line, result) pairs",
         "trusted": COMMON_TRUST + [
-            "models Frp/Model/Deadline.lean, QuicStream.lean, CodecPool1.lean written by hand from pkg/util/vhost/vhost.go "
+            "models Frp/Model/Deadline.lean, QuicStream.lean, CodecPool1.lean, the charging order of Limit.readW written by hand from pkg/util/vhost/vhost.go "
             "(Muxer.handle), pkg/util/net/conn.go (wrapQuicStream) + quic-go's stream semantics, golib io/pool "
             "(WithCompressionFromPool); tied by Frp/Gen/ConnFacts.lean (go/ast: the deadline calls of handle, the stream calls "
-            "of wrapQuicStream.Close incl. those in closures, the most invocations of a codec's recycle function on any path "
-            "of every caller) through handle_code_clears / quic_close_code / pool_recycle_once_code, and by the dl / qclose / "
+            "of wrapQuicStream.Close incl. those in closures, whether a WaitN dominates every return of limit.Reader.Read, the most invocations of a codec's recycle function on any path "
+            "of every caller) through handle_code_clears / quic_close_code / reader_code_charges / pool_recycle_once_code, and by the dl / qclose / rsrc / "
             "sched ops; the life op replays C06's Router model (Frp/Model/Router.lean)",
             "models Frp/Model/Layers.lean, Limit.lean, CloseGraph.lean, Tunnel.lean written by hand from "
             "server/proxy/proxy.go, client/proxy/proxy.go, proxy_manager.go, pkg/util/limit, pkg/util/net/conn.go, golib io / "
@@ -192,15 +192,14 @@ PROP = {
             "decompressor releases whole blocks",
             "sources and sinks of the wrappers are scripts of (n, err) answers (Limit.Seg / SinkResp): every finite behaviour "
             "the io.Reader contract allows and every contract-abiding io.Writer; a sink that returns a short count with a nil "
-            "error is outside (writer_lax_sink_witness: Write then skips bytes; compared with the model only); bytes that come "
-            "with an error are not charged to the limiter (reader_tail_uncharged, as in reader.go); "
+            "error is outside (writer_lax_sink_witness: Write then skips bytes; compared with the model only); "
             "limit.Writer's sink in wlim is modelled as a contract-abiding io.Writer (short count => error); rate.Limiter.WaitN with a "
             "background context is modelled as: error iff n > burst on a finite limiter (x/time/rate v0.5.0 Limiter.wait)",
             "DEFECTS on this tree (model faithful, witnesses proved, reproduced on the real code, recorded as known): "
             "server-side limiter close closure (server_close_witness / join_stuck_witness), CloseNotifyConn.Close "
-            "(closeNotify_witness), tcpmux early data (tcpmux_early_data_witness), limit.Reader hands on the bytes that come "
-            "with an error without charging them — over quic the last read of every stream, up to one burst (reader_charged_witness; "
-            "known; the small-limit e2e bound over the quic pair allows one more burst for it); repaired models behind "
+            "(closeNotify_witness), tcpmux early data (tcpmux_early_data_witness); limit.Reader used to hand on the bytes that come "
+            "with an error without charging them (repaired in c863bec; reader_charged_old_witness keeps the old reader as a "
+            "sensitivity witness, reader_code_charges reads the statement order off reader.go); repaired models behind "
             "CloseGraph.limiterCloseIsFixed / closeNotifyIsFixed with server_close_fixed / closeNotify_fixed",
         ],
     }
@@ -229,9 +228,8 @@ META = {
                 "StatsConn / pass-through wrappers the (n, err) pair reaches the caller unchanged, a drain yields exactly the "
                 "bytes the source delivers up to and including those that come with its final error, then that error, "
                 "StatsConn counts them all; for all contract-abiding sinks Write returns exactly the bytes the sink took, an "
-                "error whenever the sink reported one, and the sink holds a prefix; every byte is charged to the limiter when errors "
-                "come on a read of their own, REFUTED for bytes that come with the error (defect: a quic stream's last read passes "
-                "for free); any run of grants of any limiter history is at most burst + rate x span; closing the top "
+                "error whenever the sink reported one, and the sink holds a prefix; every byte that goes through limit.Reader is "
+                "charged, those that come together with an error included (the return order is regenerated from reader.go); any run of grants of any limiter history is at most burst + rate x span; closing the top "
                 "of frpc's stack closes the work connection exactly once for every combination; for frps' stack this is proved "
                 "without a server-side limit and REFUTED with one (defect: the limiter's close closure captures the reassigned "
                 "variable; user close never reaches the backend) with the repaired closure proved for all combinations; "
@@ -246,6 +244,6 @@ META = {
                 "has its own.",
         "note": "Trusted: Lean kernel; hand-written models; harness. Assumed: golib crypto/snappy lawful, x/time/rate, yamux/TLS/TCP. "
                 "Known findings reproduced on every run: C01-server-limiter-close, C01-closenotify-self-close, "
-                "C01-tcpmux-early-data, C01-limit-reader-uncharged-tail. Not covered: kcp, xtcp fallback, vhost port shared with the control port (quic / websocket: one e2e pair each); "
+                "C01-tcpmux-early-data. Not covered: kcp, xtcp fallback, vhost port shared with the control port (quic / websocket: one e2e pair each); "
                 "tcpmux / https proxy groups and http-type proxies in the life-cycle op (C06 / C10 / C13 cover their routing).",
     }
